@@ -81,8 +81,11 @@ def readTM (c : Cfg) : P TM := do
   if count < 0 then P.fail .invalidSize else
   let entries ← readMany count.toNat (readTableEntry c)
   let colCnt ← readInt32 c
+  -- repair F22: negative counts are INVALID_SIZE (they used to reach calloc and come back as OOM)
+  if colCnt < 0 then P.fail .invalidSize else
   alloc c (colCnt * 8)
   let mdCnt ← remapErr .oom (readInt32 c)
+  if mdCnt < 0 then P.fail .invalidSize else
   alloc c (mdCnt * 8)
   let rows ← readMany mdCnt.toNat (readNameRow c)
   let cols ← readMany colCnt.toNat (readColumn c rows Md.empty)
